@@ -1202,6 +1202,12 @@ func (env *SpecEnv) evalCall(e ECall) SV {
 			specFail("mapkey needs a typed value")
 		}
 		return SV{VInt{x.keyTermSpec(a.V, a.T)}, nil}
+	case "contains":
+		// contains(s, sub): strings.Contains as the executor models it (decided for literals, uninterpreted otherwise)
+		if r, ok := x.strContains(arg(0).V, arg(1).V); ok {
+			return SV{r, tBool}
+		}
+		return SV{VBool{c.Apply(c.Fun("strcontains", []Sort{SInt, SInt}, SBool), env.evalInt(e.Args[0]), env.evalInt(e.Args[1]))}, tBool}
 	case "lastIndex":
 		return SV{VInt{c.Apply(c.Fun("strLastIndex", []Sort{SInt, SInt}, SInt), env.evalInt(e.Args[0]), env.evalInt(e.Args[1]))}, tInt}
 	case "sameElems":
